@@ -96,6 +96,9 @@ def targeted_discs(rng):
                                                             G.Volume("DRUMS", [G.SampleFile("TOM-R", W(rng, 40)), G.SampleFile("KICK", W(rng, 31)), G.SampleFile("FX L", W(rng, 22)), G.SampleFile("FX R", W(rng, 22))]),
                                                             G.Volume("DRUMS", [G.SampleFile("KICK", W(rng, 32))])], sectors=24),
                                                G.Partition([G.Volume("DRUMS", [G.SampleFile("TOM-R", W(rng, 41))])], sectors=10)])))
+    # a header whose word-count field is smaller than its end marker (S155): the window is the markers', whatever the count says
+    out.append(("count-field", G.Disc([G.Partition([G.Volume("V", [G.SampleFile("PLAYED", W(rng, 5000), 1200, 4800, count=3600), G.SampleFile("SHORT", W(rng, 4026), 0, 4026, count=4023),
+                                                                  G.SampleFile("ZERO", W(rng, 700), 10, 650, count=0), G.SampleFile("BIG", W(rng, 300), 0, 300, count=100000)])], sectors=16)])))
     # left-over entries of deleted files behind the end-of-table marker (S148): nothing of them is a file of the image
     out.append(("stale-behind-marker", G.Disc([G.Partition([G.Volume("V", [G.SampleFile("KEEP 1", W(rng, 300)), G.SampleFile("KEEP 2", W(rng, 5000))], stale=4),
                                                              G.Volume("W", [G.SampleFile("ONLY", W(rng, 40))], stale=1, dir_mode="run")], sectors=20)])))
@@ -108,7 +111,7 @@ def run(ctx, rep: Report, deep: bool = False):
     rng = ctx.rng
     rep.rule = (
         "logical discs -> independent writer (gen_akai) -> real `export`/`ls` and the Lean model of the parser: 1-3 partitions x 0-3 volumes x 0-7 files, chain shape in "
-        "{contiguous, reversed, random permutation, sorted, head-not-lowest, rotated, upper-half-first, ends-fixed (first sector lowest and last highest of a span of n, inner ones in another order or outside the span)}, sample lengths incl. 0, 1, k*8192-140 bytes (exact fill, k=1..3) and +-1 word, start/end markers full/interior/empty, "
+        "{contiguous, reversed, random permutation, sorted, head-not-lowest, rotated, upper-half-first, ends-fixed (first sector lowest and last highest of a span of n, inner ones in another order or outside the span)}, sample lengths incl. 0, 1, k*8192-140 bytes (exact fill, k=1..3) and +-1 word, start/end markers full/interior/empty, a word-count field that disagrees with the markers, "
         "rates incl. 0, S1000/S3000 type bytes, directory as chain or reserved-flag run, a directory of more than 341 entries (two sectors), left-over entries of deleted files behind the end-of-table marker, L/R pairs; oracle: file set and PCM computed from the logical model; distinct = distinct image; non-trivial = image with >= 1 sample"
     )
     cases = []
@@ -145,7 +148,7 @@ def run(ctx, rep: Report, deep: bool = False):
         rep.families["akai-e2e"] = {"cases": len(cases), "disagreements": bad}
         if cases:
             rep.sample({"family": "akai-e2e", "op": cases[0].op, "result": cases[0].impl[:300]})
-    rep.required_features = ["images", "head_not_lowest_chains", "exact_fill_files", "dir_run", "dir_chain", "targeted_pair", "targeted_exact-fill", "targeted_big-directory", "targeted_same-named-volumes", "targeted_stale-behind-marker"]
+    rep.required_features = ["images", "head_not_lowest_chains", "exact_fill_files", "dir_run", "dir_chain", "targeted_pair", "targeted_exact-fill", "targeted_big-directory", "targeted_same-named-volumes", "targeted_stale-behind-marker", "targeted_count-field"]
 
 
 def search(ctx, rep: Report):
